@@ -140,6 +140,7 @@ class State:
         s.num = set(self.num)
         s.under = set(self.under)
         s.prev_fld = dict(getattr(self, 'prev_fld', {}))
+        s.ofld = dict(getattr(self, 'ofld', {}))
         return s
 
     def new(self, iv, d=None, obj=None):
@@ -452,6 +453,33 @@ class Analyser:
                 return [(st, st.new(I.const(c), d=('const', c)))]
         out = []
         for (s, a) in self.ev(st, node.value):
+            o = s.obj.get(a)
+            if o and o[0] == 'inst' and o[1] in self.prog.classes and isinstance(node.value, ast.Name) and not self.prog.is_prop(o[1], node.attr):
+                # a field of another instance of an analysed class (a parameter that passed `isinstance(p, C)`): that object is between two of
+                # its method calls, so its fields lie in the class invariant of C (the invariant under construction while C itself is being
+                # analysed -- the fixpoint covers the values that flow in from the other object).  One atom per (object, field) and state, so
+                # tests on the field refine later reads.  The other object is assumed not to be `self` (aliasing is out of scope, stated in
+                # the evidence).
+                if not hasattr(s, 'ofld'):
+                    s.ofld = {}
+                key = (a, node.attr)
+                if key not in s.ofld:
+                    inv = self.invariants.get(o[1]) or getattr(self, 'inv_in_progress', {}).get(o[1])
+                    if inv is None and o[1] != (self.cur[0][0] if self.cur else None):
+                        inv = self.class_invariant(o[1])
+                    ent = inv['fields'].get(node.attr) if inv else None
+                    if ent is not None and (ent[1] is None or ent[1][0] in ('none',)):
+                        na = s.new(ent[0], obj=ent[1])
+                        if node.attr in inv.get('num', ()):
+                            s.num.add(na)
+                        if node.attr in inv.get('under', ()):
+                            s.under.add(na)
+                    else:
+                        na = s.new(FULLTOP)
+                    s.ofld[key] = na
+                    self.other_instance_reads = getattr(self, 'other_instance_reads', set()) | {(o[1], node.attr)}
+                out.append((s, s.ofld[key]))
+                continue
             out.append((s, s.new(FULLTOP)))
         return out
 
@@ -1038,6 +1066,16 @@ class Analyser:
             return out
         if isinstance(node, ast.Call) and ast.unparse(node.func) == 'isinstance' and len(node.args) == 2:
             tnames = {ast.unparse(x) for x in (node.args[1].elts if isinstance(node.args[1], ast.Tuple) else [node.args[1]])}
+            if len(tnames) == 1 and next(iter(tnames)) in self.prog.classes and isinstance(node.args[0], ast.Name):
+                out = []
+                for (s, (a,)) in self.ev_seq(st, node.args[:1]):
+                    o = s.obj.get(a)
+                    if truth and o is None and node.args[0].id in s.env:
+                        s.obj[a] = ('inst', next(iter(tnames)))
+                    if o is not None and o[0] in ('none', 'str', 'tuple') and truth:
+                        continue
+                    out.append(s)
+                return out
             if tnames & {'float', 'int'}:
                 out = []
                 for (s, (a,)) in self.ev_seq(st, node.args[:1]):
@@ -1626,6 +1664,9 @@ class Analyser:
             inv = self.collect_inv([r[0] for r in res])
             seen_before_fields = set(inv['fields'])
             writers = self.field_writers(cname) - {'__init__'}
+            if not hasattr(self, 'inv_in_progress'):
+                self.inv_in_progress = {}
+            self.inv_in_progress[cname] = inv
             for rnd in range(6):
                 states = []
                 base = self.instantiate(cname, inv)
